@@ -873,6 +873,7 @@ void put_codes_to_output(unsigned int buf, int bitSize, unsigned char** p, int* 
 
 void convertSZParamsToBytes(sz_params* params, unsigned char* result)
 {
+	SZ_VERIF_YIELD(2);
 	//unsigned char* result = (unsigned char*)malloc(16);
 	unsigned char buf = 0;
 	//flag1: exe_params->optQuantMode(1bit), dataEndianType(1bit), sysEndianType(1bit), conf_params->szMode (1bit), conf_params->gzipMode (2bits), pwrType (2bits)
